@@ -301,6 +301,85 @@ impl<T: Ord> PairingHeap<T> {
     }
 }
 
+/// Read-only accessors used by the external verification harness.
+#[cfg(futures_intrusive_verif)]
+impl<T> HeapNode<T> {
+    /// Address of the parent node
+    pub fn verif_parent(&self) -> Option<*const HeapNode<T>> {
+        self.parent.map(|p| p.as_ptr() as *const HeapNode<T>)
+    }
+
+    /// Address of the previous sibling
+    pub fn verif_prev(&self) -> Option<*const HeapNode<T>> {
+        self.prev.map(|p| p.as_ptr() as *const HeapNode<T>)
+    }
+
+    /// Address of the next sibling
+    pub fn verif_next(&self) -> Option<*const HeapNode<T>> {
+        self.next.map(|p| p.as_ptr() as *const HeapNode<T>)
+    }
+
+    /// Address of the first child
+    pub fn verif_first_child(&self) -> Option<*const HeapNode<T>> {
+        self.first_child.map(|p| p.as_ptr() as *const HeapNode<T>)
+    }
+}
+
+/// Read-only traversal used by the external verification harness.
+#[cfg(futures_intrusive_verif)]
+impl<T> PairingHeap<T> {
+    /// Address of the root node
+    pub fn verif_root(&self) -> Option<*const HeapNode<T>> {
+        self.root.map(|p| p.as_ptr() as *const HeapNode<T>)
+    }
+
+    /// Visits all nodes reachable from the root through `first_child` and
+    /// `next` links in pre-order. The walk is bounded, so that a corrupted
+    /// heap can not hang the caller.
+    pub fn verif_for_each(&self, f: &mut dyn FnMut(&HeapNode<T>)) {
+        // Iterative pre-order walk without auxiliary memory: descend into the
+        // first child, otherwise advance to the next sibling, otherwise climb
+        // up through the parent links until a next sibling exists.
+        let mut current = self.root;
+        let mut steps = 0usize;
+        while let Some(node) = current {
+            if steps == 1 << 16 {
+                return;
+            }
+            steps += 1;
+            // Safety: Nodes in the heap are alive as long as they are linked
+            let node_ref = unsafe { &*(node.as_ptr() as *const HeapNode<T>) };
+            f(node_ref);
+            if node_ref.first_child.is_some() {
+                current = node_ref.first_child;
+                continue;
+            }
+            let mut up = node_ref;
+            loop {
+                if up.next.is_some() {
+                    current = up.next;
+                    break;
+                }
+                match up.parent {
+                    Some(parent) => {
+                        if steps == 1 << 16 {
+                            return;
+                        }
+                        steps += 1;
+                        up = unsafe {
+                            &*(parent.as_ptr() as *const HeapNode<T>)
+                        };
+                    }
+                    None => {
+                        current = None;
+                        break;
+                    }
+                }
+            }
+        }
+    }
+}
+
 #[cfg(all(test, feature = "std"))]
 mod tests {
     use super::{HeapNode, PairingHeap};
